@@ -629,10 +629,21 @@ fn pipe_path(seed: u64, rounds: usize) {
                 let mismatch: i64 = if got == stream { -1 } else { common as i64 };
                 out.ev(&json!({"op":"pipe","kind":kind,"len":len,"rlen":got.len(),"mismatch":mismatch,
                     "ok": i32::from(ok), "count": count, "signals": fired}));
+                out.flush(); // a later crash of the code under test must not lose this record
             }
         }
     }
     out.flush();
+}
+
+static CUR: std::sync::atomic::AtomicUsize = std::sync::atomic::AtomicUsize::new(0);
+extern "C" fn on_crash(sig: i32) {
+    let i = CUR.load(std::sync::atomic::Ordering::SeqCst);
+    let msg = format!("\n{{\"crash\":{i},\"signal\":{sig}}}\n");
+    unsafe {
+        libc::write(1, msg.as_ptr().cast(), msg.len());
+        libc::_exit(42);
+    }
 }
 
 fn main() {
@@ -641,16 +652,30 @@ fn main() {
     let mut out = Out::new();
     match args.get(1).map(String::as_str) {
         Some("run") => {
+            // run <cases> [skip]: a crash of the code under test (SIGSEGV & co.) is data: the handler
+            // reports the index of the running case and exits 42; with IOHELP_FLUSH=1 every result is
+            // flushed before the next case starts, so nothing before the crash is lost
+            let skip: usize = args.get(3).and_then(|x| x.parse().ok()).unwrap_or(0);
+            let flush = std::env::var("IOHELP_FLUSH").is_ok();
+            unsafe {
+                for sig in [libc::SIGSEGV, libc::SIGBUS, libc::SIGILL, libc::SIGABRT, libc::SIGFPE] {
+                    libc::signal(sig, on_crash as usize);
+                }
+            }
             let f = std::io::BufReader::new(std::fs::File::open(&args[2]).expect("open cases"));
             for (i, line) in f.lines().enumerate() {
                 let line = line.unwrap();
-                if line.trim().is_empty() {
+                if i < skip || line.trim().is_empty() {
                     continue;
                 }
+                CUR.store(i, std::sync::atomic::Ordering::SeqCst);
                 let c: Value = serde_json::from_str(&line).expect("case json");
                 let mut r = run_case(&c);
                 r["i"] = json!(i);
                 out.ev(&r);
+                if flush {
+                    out.flush();
+                }
             }
         }
         Some("pipe") => {
